@@ -125,6 +125,11 @@ func VerifyFuncX(P *Program, DB *ContractDB, fc *FuncContract, safety bool, excu
 		}
 		cond = and(cond, g)
 	}
+	if fc.Sweep && fn.Signature.Recv() != nil && len(fn.Params) > 0 {
+		if _, isP := fn.Params[0].Type().Underlying().(*types.Pointer); isP {
+			cond = and(cond, fmt.Sprintf("(not (= %s 0))", args[0].term))
+		}
+	}
 	f.lets = lets
 	pre := B.define("pre", "Bool", cond)
 	f.preTerm = pre
@@ -232,6 +237,15 @@ func VerifyFuncX(P *Program, DB *ContractDB, fc *FuncContract, safety bool, excu
 	res.Obls = t.obls
 	for n := range B.notes {
 		res.Notes = append(res.Notes, n)
+	}
+	for _, li := range f.loops {
+		kind := "for"
+		if phi, _, _ := f.rangeIndexInfo(li); phi != nil {
+			kind = "range (index)"
+		} else if f.rangeMapInfo(li) != nil {
+			kind = "range (map)"
+		}
+		res.Notes = append(res.Notes, fmt.Sprintf("loop %d: %s, %s", li.ordinal, kind, P.Prog.Fset.Position(blockPos(li.header))))
 	}
 	sort.Strings(res.Notes)
 	for n := range t.trusted {
